@@ -1077,12 +1077,17 @@ enum UKind
   U_ARR_RESET,
   U_ARR_MOVE,
   U_ARR_NULL,
+  U_CHAIN_PUSH,
+  U_CHAIN_POP,
+  U_CHAIN_POP_SECOND,
+  U_CHAIN_SPLICE,
   U_NKINDS
 };
 const char *const kUNames[] = {"make",          "make_derived_to_base", "make_derived", "reset_new",    "reset",
                                "assign_null",   "move_assign",          "move_construct", "swap",       "convert_derived",
                                "release_delete", "release_rewrap",      "from_std",     "to_std",       "std_back",
-                               "arr_make",      "arr_reset",            "arr_move",     "arr_null"};
+                               "arr_make",      "arr_reset",            "arr_move",     "arr_null",
+                               "chain_push",    "chain_pop",            "chain_pop_second", "chain_splice"};
 
 template <class P>
 struct UWorld
@@ -1096,6 +1101,14 @@ struct UWorld
   up<D> d[2];
   up<O[]> arr;
   std::unique_ptr<O> parked;  // a std::unique_ptr on both sides (conversions from/to the std type)
+  // a pointee that owns the next one through the pointer under test (list idiom: head = move(head->next),
+  // where the source of the move assignment is owned by the object the destination is about to give up)
+  struct UNode : O
+  {
+    up<UNode> next;
+    explicit UNode(int i) : O(i) {}
+  };
+  up<UNode> chain[2];
 
   void step(const POp &op, std::ostream &o)
   {
@@ -1234,6 +1247,26 @@ struct UWorld
       case U_ARR_NULL:
         arr = nullptr;
         break;
+      case U_CHAIN_PUSH:
+      {
+        up<UNode> n(new UNode(op.id));
+        n->next     = std::move(chain[op.k]);
+        chain[op.k] = std::move(n);
+        break;
+      }
+      case U_CHAIN_POP:
+        if (chain[op.k])
+          chain[op.k] = std::move(chain[op.k]->next);
+        break;
+      case U_CHAIN_POP_SECOND:
+        if (chain[op.k] && chain[op.k]->next)
+          chain[op.k]->next = std::move(chain[op.k]->next->next);
+        break;
+      case U_CHAIN_SPLICE:
+        // the tail of one chain replaces the whole other chain (or, k twice, the chain itself)
+        if (chain[op.k] && chain[op.k]->next)
+          chain[op.flag & 1] = std::move(chain[op.k]->next);
+        break;
     }
   }
 
@@ -1267,7 +1300,16 @@ struct UWorld
         o << (b[i] == d[k]) << (b[i] != d[k]) << (d[k] == b[i]);
     }
     o << " arr=" << (arr.get() ? arr.get()[0].id : -1) << (static_cast<bool>(arr) ? "+" : "-");
-    o << " parked=" << (parked ? parked->id : -1) << " " << g_reg[S].show();
+    o << " parked=" << (parked ? parked->id : -1);
+    for (int k = 0; k < 2; ++k)
+    {
+      o << " chain" << k << "=[";
+      int guard = 0;
+      for (const UNode *n = chain[k].get(); n && guard < 64; n = n->next.get(), ++guard)
+        o << n->id << ",";
+      o << "]";
+    }
+    o << " " << g_reg[S].show();
   }
 };
 }  // namespace
@@ -1275,8 +1317,9 @@ struct UWorld
 VH_TARGET(uptr_ops, 3,
           "a program is non-trivial when it contains an ownership transfer between two slots that "
           "both hold an object, a self move-assignment / self swap of an owning pointer, a "
-          "release, or a conversion (derived-to-base, from/to std::unique_ptr) of an owning "
-          "pointer; distinct = distinct operation sequence text")
+          "release, a conversion (derived-to-base, from/to std::unique_ptr) of an owning "
+          "pointer, or a move assignment whose source is owned by the object the destination holds "
+          "(list pop); distinct = distinct operation sequence text")
 {
   vh::Reader &rd = c.rd;
   g_reg[0].reset();
@@ -1298,7 +1341,7 @@ VH_TARGET(uptr_ops, 3,
     for (unsigned step = 0; step < nops && (step == 0 || !rd.exhausted()); ++step)
     {
       POp op;
-      op.kind = static_cast<int>(rd.weighted({14, 5, 5, 4, 3, 3, 12, 6, 8, 6, 4, 5, 6, 4, 4, 3, 2, 2, 1}));
+      op.kind = static_cast<int>(rd.weighted({14, 5, 5, 4, 3, 3, 12, 6, 8, 6, 4, 5, 6, 4, 4, 3, 2, 2, 1, 9, 6, 3, 3}));
       op.i    = static_cast<int>(rd.below(4));
       op.j    = static_cast<int>(rd.below(4));
       op.k    = static_cast<int>(rd.below(2));
@@ -1357,6 +1400,19 @@ VH_TARGET(uptr_ops, 3,
         case U_STD_BACK:
           c.tag(std::string("std_back") + (ws.parked ? "-owning" : "-null"));
           break;
+        case U_CHAIN_POP:
+        case U_CHAIN_POP_SECOND:
+        case U_CHAIN_SPLICE:
+        {
+          // non-trivial when the move assignment's source is owned by the object the destination gives up
+          int len = 0;
+          for (auto *n = ws.chain[op.k].get(); n; n = n->next.get())
+            ++len;
+          bool deep = len >= (op.kind == U_CHAIN_POP ? 2 : 3);
+          c.tag(std::string(kUNames[op.kind]) + (deep ? "-source-owned-by-destination's-object" : "-short"));
+          c.nontrivial = c.nontrivial || deep;
+          break;
+        }
         default:
           c.tag(kUNames[op.kind]);
           break;
